@@ -17,6 +17,14 @@ VERIF = os.path.dirname(os.path.dirname(os.path.dirname(os.path.abspath(__file__
 EXIT_OK, EXIT_VIOLATION, EXIT_INCONCLUSIVE = 0, 1, 2
 
 
+def _explore_stats():
+    from . import explore
+
+    d = dict(explore.STATS)
+    d["solver_s"] = round(d["solver_s"], 3)
+    return d
+
+
 def load_findings():
     p = os.path.join(VERIF, "known_findings.json")
     if not os.path.exists(p):
@@ -206,6 +214,7 @@ class Check:
             "bounds": self.bounds,
             "stubs": self.stubs,
             "solver": self.prover.stats(),
+            "path_exploration": _explore_stats(),
             "vacuity_guards": self.vacuity,
             "sections": self.sections,
             "known_findings_hit": sorted({k for k, _, _ in self.known_hits}),
@@ -230,7 +239,7 @@ class Check:
             json.dump(ev, f, indent=1, default=str)
         st = self.prover.stats()
         print(f"[{self.pid}] tier={self.tier} obligations={self.obligations} discharged={self.discharged} "
-              f"paths={self.paths} queries={st['queries']} solver_s={st['solver_s']} wall_s={wall:.1f} "
+              f"paths={self.paths} queries={st['queries']}+{_explore_stats()['feasibility_queries']} solver_s={st['solver_s']}+{_explore_stats()['solver_s']} wall_s={wall:.1f} "
               f"violations={len(self.violations)} known={len(self.known_hits)} inconclusive={len(self.inconclusive)}",
               flush=True)
         if self.prover.cross_disagree:
